@@ -88,6 +88,132 @@ TABLE = {
   ref="Part 3 C10"),
 }
 
+TABLE.update({
+ "C11": dict(
+  tech="whole-package call inventory with callee resolution through the "
+       "import tables (all try/except alternatives), option check on "
+       "defusedxml calls, import inventory, single-funnel check of generated "
+       "*_from_string, handler inventory, positive control",
+  text="Decides the property's 'programs' quantifier: every call in the "
+       "package that turns XML text into a tree resolves to defusedxml with "
+       "default protections; the standard-library ElementTree is used only to "
+       "build/serialise; third-party parsing is limited to two named sites of "
+       "the opt-in pyXMLSecurity backend; all 1143 generated *_from_string "
+       "functions go through create_class_from_xml_string; no parse function "
+       "swallows a parser error. What libxml2 inside xmlsec1 does and parser "
+       "behaviour on concrete hostile documents are not decided.",
+  ref="Part 3 C11"),
+ "C12": dict(
+  tech="schema-table reflection (import of the schema modules in a child "
+       "process, module top level only) + exhaustive table rules + AST "
+       "constructor-coverage + engine channel symmetry",
+  text="Decides, exhaustively over all 1155 schema classes, that every "
+       "c_children key equals the child's own {ns}tag, that c_child_order "
+       "covers the members, that member names are unique, that the "
+       "constructor chain assigns every member, that the module maps agree "
+       "with the classes, and that the generic reader and writer in "
+       "SamlBase/ExtensionContainer use the same six channels. Equality of "
+       "arbitrary instance trees and byte stability are not decided.",
+  ref="Part 3 C12"),
+ "C13": dict(
+  tech="schema-table reflection + exhaustive type-name/cardinality rules, "
+       "linear normal forms of the cardinality tests, must-delegate path rule "
+       "for verify() overrides, fallibility checks of validators",
+  text="Decides that every declared attribute type resolves under "
+       "validate.valid's own resolution (or a default), that every bound names "
+       "a real member and is well formed, the shape of valid_instance "
+       "(required/empty, typed validation, min/max normal forms, recursion, "
+       "text), delegation of the five verify() overrides, that the checked "
+       "simple-type validators can fail and are wired into VALIDATOR, and "
+       "validation on the receive paths. Value-level conformance of arbitrary "
+       "strings is not decided.",
+  ref="Part 3 C13"),
+ "C14": dict(
+  tech="classified template inventory, sanitiser (html.escape) check on every "
+       "substitution, derivation of URL/form data from urlencode, "
+       "encoder/decoder pairing by binding guard, structural agreement of the "
+       "deflate helpers, SOAP decoder coverage table",
+  text="Decides that message/RelayState-derived values are html.escape()d "
+       "before substitution into the POST form, that queries and form bodies "
+       "come only from urlencode with the ?/& glue rule, that apply_binding "
+       "and unravel choose inverse codecs per binding, that the raw-DEFLATE "
+       "encoder/decoder agree, and SOAP embedding/expected-tag/decoder "
+       "coverage. Byte identity for all strings and browser parsing are not "
+       "decided.",
+  ref="Part 3 C14"),
+ "C15": dict(
+  tech="ownership analysis of module-level object containers (attribute "
+       "stores on elements obtained from them, with positive control), "
+       "derivation of signer/key, feature comparison of the signed octet "
+       "string on both sides, verdict derivation",
+  text="Decides that no function writes to a signer object shared through "
+       "SIGNER_ALGS (the structural cause of every key mix-up history or "
+       "schedule), that the signer carries the entity's own key, that signer "
+       "and verifier build the signed string identically (order tables, "
+       "encoder, separator, filter, SigAlg in / Signature out), that the "
+       "verdict derives only from signer.verify and failures are False. "
+       "Thread interleavings as such and RSA are not decided.",
+  ref="Part 3 C15"),
+ "C16": dict(
+  tech="agreement of accessor key strings and service tables with reflected "
+       "md/xmldsig class tables, flag-sensitive validity gates incl. "
+       "exception (fail-open) paths, caller inventory for verify-before-serve",
+  text="Decides that every (descriptor, service) key an accessor uses is a "
+       "real member along the schema path, that expired entities/documents "
+       "never reach the commit (also when the validity test raises), the "
+       "unknown/unsupported/binding filter, entity isolation and key-use "
+       "filter, and whether every caller acts on the signature verdict. "
+       "Three genuine violations are recorded as known findings. Exactness "
+       "for arbitrary federation documents is not decided.",
+  ref="Part 3 C16"),
+ "C17": dict(
+  tech="statement-order rule in the common block, move-not-copy check, "
+       "flag-sensitive failure rules, same-gate dominance for decrypted "
+       "assertions, parity rule for load-time checks",
+  text="Decides sign-assertion < encrypt < sign-response ordering, that the "
+       "clear assertion is moved into the EncryptedAssertion, that empty tool "
+       "output raises and a failed encryption never returns the clear "
+       "response, that decrypted assertions pass _assertion and signature "
+       "checks, and whether load-time checks are repeated for decrypted "
+       "assertions (one genuine violation recorded). Ciphertext contents and "
+       "key matching are not decided.",
+  ref="Part 3 C17"),
+ "C18": dict(
+  tech="who-may-write ownership of the identifier map, pairing checks of "
+       "forward/reverse updates, codec feature agreement incl. quote() safe "
+       "set, derivation from rndbytes, guard-set checks, symtable "
+       "undefined-name scan",
+  text="Decides necessary conditions of consistency over any history: only "
+       "store/remove_remote/remove_local write the map and each keeps both "
+       "directions in step, code/decode agree and separators are always "
+       "quoted, new ids derive from fresh randomness with a collision retry, "
+       "persistent lookup precedes issue and compares both qualifiers, the "
+       "manage-name-id sequence, no undefined names. Histories and run-time "
+       "uniqueness are not decided.",
+  ref="Part 3 C18"),
+ "C19": dict(
+  tech="derivation of every index into Cache._db, dominance of the expiry "
+       "test, writer/reader tuple agreement, reachability of the merge from "
+       "stale branches, shape checks, normal forms of before/after",
+  text="Decides that every access to the cache map is keyed by "
+       "code(name_id) of the method's own subject, that get() returns only "
+       "after the expiry test and set()/get() agree on the stored tuple, that "
+       "expired/empty sources cannot reach the merge, delete/reset shapes and "
+       "backend neutrality. Histories and shelve semantics are not decided.",
+  ref="Part 3 C19"),
+ "C20": dict(
+  tech="flag-sensitive shape rules on _run_xmlsec / parse_xmlsec_output / "
+       "sign_statement, frozen call-site set, verdict derivation, reuse of "
+       "C01.R7/R8 and C17.R3/R6",
+  text="Decides that death by signal raises, that the tool's report is "
+       "validated unless one of four producing operations opts out, that "
+       "success requires a whole line equal to OK, that the verdict is handed "
+       "up unchanged, that nothing is accepted unless verified was set under "
+       "a truthy verdict, and that signing/encryption without output raise. "
+       "The tool's real behaviour under each fault mode is not decided.",
+  ref="Part 3 C20"),
+})
+
 NOT_APPLICABLE = {
  "C08": "every clause quantifies over run-time values across two processes, "
         "an external signer and an XML round trip (acceptance plus equality of "
